@@ -4,7 +4,26 @@ package lib
 
 import (
 	"fmt"
+	"time"
 )
+
+// KBCompactRaces adds the compaction-vs-create race (c01) on the given engines.
+func KBCompactRaces(w *Writer, args Args, engines []string) {
+	for _, e := range engines {
+		n, err := NewKBNode(e, args.Scratch)
+		if err != nil {
+			w.Fail(ImplFailure{CaseID: -1, What: "cannot open engine " + e + ": " + err.Error()})
+			continue
+		}
+		c, err := n.RunCompactRace()
+		if err != nil {
+			w.Fail(ImplFailure{CaseID: w.Len(), What: fmt.Sprintf("compaction race on %s: %v", e, err), Case: c.JSON()})
+		} else {
+			w.Add(Case{Coq: c.Coq(), JSON: c.JSON(), Kind: "compact-race/" + e, Trivial: false, Outcomes: []string{"compact_race"}})
+		}
+		n.Close()
+	}
+}
 
 // symbolic expected revisions, resolved against the initial state of the case
 const (
@@ -182,6 +201,17 @@ func KBCorpus() []KBSpec {
 			Init: []int{InitLive}, Fix: kbFix, Rewrite: true, RewriteDelete: true,
 			Progs: [][]KReq{{{Op: OpCreate, Key: 0, Val: v("cr")}}},
 			Pick:  FixedPick([][2]int{{0, 0}, {1, 0}, {1, 0}, {1, 0}, {0, 0}})})
+	// a write whose storage transaction is still running must not become readable, whatever the request context does
+	cs = append(cs,
+		KBSpec{Note: "update with a 100 ms request deadline whose commit is held inside the engine for 150 ms: the read revision stays below it until the commit returns",
+			Init: []int{InitLive}, Fix: kbFix, Hold: true, HoldThread: 0, HoldDeadline: 100 * time.Millisecond,
+			Progs: [][]KReq{{{Op: OpUpdate, Val: v("held"), Sym: SymCorrect}}},
+			Pick:  FixedPick(nil)},
+		KBSpec{Note: "delete with a 100 ms request deadline whose commit is held inside the engine for 150 ms, a create on another key meanwhile",
+			Init: []int{InitLive, InitNever}, Fix: kbFix, Hold: true, HoldThread: 0, HoldDeadline: 100 * time.Millisecond,
+			Progs: [][]KReq{{{Op: OpDelete, Sym: SymCorrect}}, {{Op: OpCreate, Key: 1, Val: v("other")}}},
+			Pick:  FixedPick([][2]int{{0, 0}, {0, 0}, {1, 0}, {0, 0}})},
+	)
 	return append(cs, []KBSpec{
 		{Note: "two creators on one absent key, commits interleaved",
 			Init: []int{InitNever}, Fix: kbFix,
@@ -278,6 +308,9 @@ func KBDrive(w *Writer, args Args, prof KBProfile) {
 	}
 	for _, e := range engines {
 		for _, spec := range KBCorpus() {
+			if spec.Hold && e == EngTiKV {
+				continue // the TiKV client observes the request context inside Commit itself
+			}
 			run(e, spec, "corpus")
 		}
 	}
